@@ -91,16 +91,68 @@ class _Canon(ast.NodeTransformer):
     (`not not a` -> `a`, De Morgan, `not a == b` -> `a != b`, likewise in / is; order comparisons are left alone because
     `not a < b` and `a >= b` differ for unordered values).  Positions are preserved."""
 
+    def visit_Expr(self, n: ast.Expr):
+        # `xs.extend(f(v) for v in it)`  ->  `for v in it: xs.append(f(v))`   (a mapping; the plain copy `[v for v in it]` is left alone)
+        c = n.value
+        if isinstance(c, ast.Call) and isinstance(c.func, ast.Attribute) and c.func.attr == "extend" and len(c.args) == 1 and not c.keywords \
+                and isinstance(c.args[0], (ast.GeneratorExp, ast.ListComp)) and len(c.args[0].generators) == 1 and not c.args[0].generators[0].is_async:
+            g = c.args[0].generators[0]
+            recv = c.func.value
+            pure = recv
+            while isinstance(pure, ast.Attribute):
+                pure = pure.value
+            stack = self.__dict__.get("_fn_stack") or []
+            tnames = [x.id for x in ast.walk(g.target) if isinstance(x, ast.Name)]
+            inside = {}
+            for x in ast.walk(c.args[0]):
+                if isinstance(x, ast.Name) and x.id in tnames:
+                    k = inside.setdefault(x.id, [0, 0])
+                    k[0 if isinstance(x.ctx, ast.Load) else 1] += 1
+            private = bool(stack) and all(stack[-1].get(t, [0, 0]) == inside.get(t) for t in tnames)     # the loop variable is used nowhere else
+            if isinstance(pure, ast.Name) and private and not (isinstance(c.args[0].elt, ast.Name) and c.args[0].elt.id in tnames):
+                app = ast.Expr(value=ast.Call(func=ast.Attribute(value=recv, attr="append", ctx=ast.Load()), args=[c.args[0].elt], keywords=[]))
+                inner: ast.stmt = ast.copy_location(app, n)
+                for t in reversed(g.ifs):
+                    inner = ast.copy_location(ast.If(test=t, body=[inner], orelse=[]), n)
+                loop = ast.copy_location(ast.For(target=g.target, iter=g.iter, body=[inner], orelse=[]), n)
+                ast.fix_missing_locations(loop)
+                return self.visit(loop)
+        self.generic_visit(n)
+        return n
+
     def visit_Return(self, n: ast.Return):
         # `return a if c else b`  ->  `if c: return a` / `else: return b`
         if isinstance(n.value, ast.IfExp):
             new = ast.If(test=n.value.test, body=[ast.copy_location(ast.Return(value=n.value.body), n)],
                          orelse=[ast.copy_location(ast.Return(value=n.value.orelse), n)])
             return self.visit(ast.copy_location(new, n))
+        # `return isinstance(x, T) and e`  ->  `if not isinstance(x, T): return False` / `return e`  (isinstance answers a bool, so the
+        # short-circuit value is exactly False)
+        v = n.value
+        if isinstance(v, ast.BoolOp) and isinstance(v.op, ast.And) and len(v.values) >= 2 and isinstance(v.values[0], ast.Call) \
+                and isinstance(v.values[0].func, ast.Name) and v.values[0].func.id == "isinstance":
+            rest = v.values[1] if len(v.values) == 2 else ast.copy_location(ast.BoolOp(op=ast.And(), values=v.values[1:]), v)
+            guard = ast.copy_location(ast.If(test=ast.copy_location(ast.UnaryOp(op=ast.Not(), operand=v.values[0]), v),
+                                             body=[ast.copy_location(ast.Return(value=ast.copy_location(ast.Constant(value=False), n)), n)], orelse=[]), n)
+            tail = self.visit_Return(ast.copy_location(ast.Return(value=rest), n))
+            return [guard] + (tail if isinstance(tail, list) else [tail])
         self.generic_visit(n)
         return n
 
     def visit_Assign(self, n: ast.Assign):
+        # `a, b = e1, e2` with independent sides  ->  `a = e1` / `b = e2` (returned as a list: the block flattens it)
+        if len(n.targets) == 1 and isinstance(n.targets[0], (ast.Tuple, ast.List)) and isinstance(n.value, (ast.Tuple, ast.List)) \
+                and len(n.targets[0].elts) == len(n.value.elts) and all(isinstance(t, ast.Name) for t in n.targets[0].elts) \
+                and not any(isinstance(e, ast.Starred) for e in n.value.elts):
+            written = {t.id for t in n.targets[0].elts}
+            read = {x.id for e in n.value.elts for x in ast.walk(e) if isinstance(x, ast.Name)}
+            if not (written & read) and len(written) == len(n.targets[0].elts):
+                out = []
+                for t, e in zip(n.targets[0].elts, n.value.elts):
+                    a = ast.copy_location(ast.Assign(targets=[ast.Name(id=t.id, ctx=ast.Store())], value=e), n)
+                    r = self.visit_Assign(a)
+                    out.extend(r if isinstance(r, list) else [r])
+                return out
         # `x = a if c else b`  ->  `if c: x = a` / `else: x = b`  (a conditional expression that is the whole right-hand side)
         if isinstance(n.value, ast.IfExp) and len(n.targets) == 1 and isinstance(n.targets[0], ast.Name):
             def asg(v):
@@ -235,6 +287,12 @@ class _Canon(ast.NodeTransformer):
         ast.fix_missing_locations(new)
         return new
 
+    def visit_Module(self, n: ast.Module):
+        self._props = {f.name for f in ast.walk(n) if isinstance(f, ast.FunctionDef)
+                       and any((isinstance(d, ast.Name) and d.id in ("property", "cached_property")) or (isinstance(d, ast.Attribute) and d.attr in ("setter", "cached_property"))
+                               for d in f.decorator_list)}
+        return self.generic_visit(n)
+
     def visit_FunctionDef(self, n: ast.FunctionDef):
         stack = self.__dict__.setdefault("_fn_stack", [])
         counts: dict = {}
@@ -247,9 +305,68 @@ class _Canon(ast.NodeTransformer):
                     counts.setdefault(nm, [0, 0])[1] += 5
         stack.append(counts)
         try:
-            return self.generic_visit(n)
+            n = self.generic_visit(n)
+            self._field_copies(n, counts)
+            return n
         finally:
             stack.pop()
+
+    def _field_copies(self, fn: ast.FunctionDef, counts: dict) -> None:
+        """`k = self.key` read a few statements later, with nothing in between that could change the field, is `self.key`:
+        a local that only caches a plain field (not a property) for the statements that directly follow."""
+        props = self.__dict__.get("_props", set())
+
+        def scan(block: list[ast.stmt]):
+            i = 0
+            while i < len(block):
+                st = block[i]
+                for fld in ("body", "orelse", "finalbody"):
+                    b = getattr(st, fld, None)
+                    if isinstance(b, list) and b and isinstance(b[0], ast.stmt):
+                        scan(b)
+                if isinstance(st, ast.Try):
+                    for h in st.handlers:
+                        scan(h.body)
+                if isinstance(st, ast.Assign) and len(st.targets) == 1 and isinstance(st.targets[0], ast.Name) and isinstance(st.value, ast.Attribute) \
+                        and isinstance(st.value.value, ast.Name) and st.value.value.id == "self" and st.value.attr not in props \
+                        and counts.get(st.targets[0].id, [0, 0])[1] == 1 and 1 <= counts.get(st.targets[0].id, [0, 0])[0] <= 4:
+                    name, attr = st.targets[0].id, st.value.attr
+                    total = counts[name][0]
+                    seen, j, ok = 0, i + 1, True
+                    while j < len(block) and seen < total and ok:
+                        nxt = block[j]
+                        here = sum(1 for x in ast.walk(nxt) if isinstance(x, ast.Name) and x.id == name and isinstance(x.ctx, ast.Load))
+                        seen += here
+                        last = seen >= total
+                        for x in ast.walk(nxt):
+                            if isinstance(x, ast.Call) and ((isinstance(x.func, ast.Attribute) and isinstance(x.func.value, ast.Name) and x.func.value.id == "self")
+                                                            or any(isinstance(a, ast.Name) and a.id == "self" for a in x.args)):
+                                ok = False            # a method of the object may rebind the field
+                            if isinstance(x, ast.Attribute) and isinstance(x.ctx, (ast.Store, ast.Del)) and x.attr == attr:
+                                par_ok = last and isinstance(nxt, (ast.Assign, ast.If))      # value read before the store in `self.a = f(k)`
+                                stores_after_reads = all(isinstance(a, ast.Assign) and any(t is x for t in a.targets) and
+                                                         any(isinstance(y, ast.Name) and y.id == name for y in ast.walk(a.value))
+                                                         for a in ast.walk(nxt) if isinstance(a, ast.Assign) and any(t is x for t in a.targets))
+                                sts = [a for a in ast.walk(nxt) if isinstance(a, ast.Assign) and any(t is x for t in a.targets)]
+                                late = any(isinstance(y, ast.Name) and y.id == name and getattr(y, "lineno", 0) > getattr(a, "end_lineno", a.lineno)
+                                           for a in sts for y in ast.walk(nxt))
+                                if not (par_ok and stores_after_reads and sts and not late):
+                                    ok = False
+                            if isinstance(x, (ast.For, ast.While)) and here:
+                                ok = False
+                        j += 1
+                    if ok and seen == total:
+                        for nxt in block[i + 1:j]:
+                            class _S(ast.NodeTransformer):
+                                def visit_Name(self2, x):
+                                    if x.id == name and isinstance(x.ctx, ast.Load):
+                                        return ast.copy_location(ast.Attribute(value=ast.Name(id="self", ctx=ast.Load()), attr=attr, ctx=ast.Load()), x)
+                                    return x
+                            _S().visit(nxt)
+                        del block[i]
+                        continue
+                i += 1
+        scan(fn.body)
 
     def _single_use_temp(self, name: str, test: ast.AST) -> bool:
         stack = self.__dict__.get("_fn_stack") or []
@@ -302,10 +419,40 @@ class _Canon(ast.NodeTransformer):
                             nxt.test = self.visit_Compare(nxt.test)
                         i += 1
                         continue
+                    # a plain alias `t = name` that is read once, by the simple statement that follows it, is that name
+                    if isinstance(st, ast.Assign) and len(st.targets) == 1 and isinstance(st.targets[0], ast.Name) and isinstance(st.value, ast.Name) \
+                            and isinstance(nxt, (ast.Expr, ast.Assign, ast.AugAssign, ast.Return)) and self._single_use_temp(st.targets[0].id, nxt) \
+                            and not any(isinstance(x, ast.Name) and x.id == st.value.id and isinstance(x.ctx, ast.Store) for x in ast.walk(nxt)):
+                        name, repl = st.targets[0].id, st.value.id
+                        for x in ast.walk(nxt):
+                            if isinstance(x, ast.Name) and x.id == name and isinstance(x.ctx, ast.Load):
+                                x.id = repl
+                        i += 1
+                        continue
+                    # `r = self.abs` read once, as the receiver of the call that the next statement makes first: the receiver is
+                    # evaluated before the arguments either way, so `r.merge(xs)` is `self.abs.merge(xs)`
+                    if isinstance(st, ast.Assign) and len(st.targets) == 1 and isinstance(st.targets[0], ast.Name) and isinstance(st.value, ast.Attribute) \
+                            and isinstance(st.value.value, ast.Name) and isinstance(nxt, (ast.Expr, ast.Assign, ast.Return)) \
+                            and isinstance(nxt.value, ast.Call) and isinstance(nxt.value.func, ast.Attribute) and isinstance(nxt.value.func.value, ast.Name) \
+                            and nxt.value.func.value.id == st.targets[0].id and self._single_use_temp(st.targets[0].id, nxt):
+                        nxt.value.func.value = ast.copy_location(copy.deepcopy(st.value), nxt.value.func.value)
+                        i += 1
+                        continue
                     nb.append(st)
                     i += 1
                 if len(nb) != len(b):
                     setattr(node, fld, nb)
+        # `if not <order comparison>: continue` directly in a loop body, followed by more statements, is the positive branch written as a
+        # guard clause (the negation of an order comparison has no positive spelling that also agrees for NaN): nest the rest under it
+        if isinstance(node, (ast.For, ast.While)) and isinstance(node.body, list):
+            b = node.body
+            for i, st in enumerate(b):
+                if isinstance(st, ast.If) and not st.orelse and len(st.body) == 1 and isinstance(st.body[0], ast.Continue) \
+                        and isinstance(st.test, ast.UnaryOp) and isinstance(st.test.op, ast.Not) and isinstance(st.test.operand, ast.Compare) \
+                        and len(st.test.operand.ops) == 1 and isinstance(st.test.operand.ops[0], (ast.Lt, ast.LtE, ast.Gt, ast.GtE)) and b[i + 1:]:
+                    new_if = ast.copy_location(ast.If(test=st.test.operand, body=b[i + 1:], orelse=[]), st)
+                    node.body = b[:i] + [new_if]
+                    break
         for fld in ("body", "orelse", "finalbody"):
             b = getattr(node, fld, None)
             if isinstance(b, list) and len(b) > 1 and any(isinstance(x, ast.Pass) for x in b):
@@ -344,6 +491,8 @@ class Program:
                     tree = ast.parse(src, filename=path)
                 except SyntaxError as e:
                     raise AnalysisError(f"{path}: does not parse: {e}")
+                from .inline import inline_private_helpers
+                inline_private_helpers(tree)          # "extract helper" undone before anything looks at the shape of a function
                 tree = _Canon().visit(tree)
                 ast.fix_missing_locations(tree)
                 set_parents(tree)
@@ -381,6 +530,9 @@ class Program:
 
     # ------------------------------------------------------------------ index
     def _index(self) -> None:
+        def dissolved(fn: ast.FunctionDef, path: str) -> bool:
+            # a private helper whose every call in its module was inlined, and that no other module mentions
+            return getattr(fn, "_dissolved", False) and not any(fn.name in s for q, s in self.sources.items() if q != path)
         for path, mod in self.modules.items():
             for node in mod.tree.body:
                 if isinstance(node, ast.ClassDef):
@@ -393,6 +545,8 @@ class Program:
                     ci = ClassInfo(node.name, node, path, bases)
                     self.classes[node.name] = ci
                     for item in node.body:
+                        if isinstance(item, ast.FunctionDef) and dissolved(item, path):
+                            continue
                         if isinstance(item, ast.FunctionDef):
                             fi = FuncInfo(f"{node.name}.{item.name}", item.name, item, node.name, path)
                             # property setter would clash; repo has none
@@ -410,7 +564,7 @@ class Program:
                                 except Exception:
                                     members.append((item.targets[0].id, None))
                         self.enums[node.name] = members
-                elif isinstance(node, ast.FunctionDef):
+                elif isinstance(node, ast.FunctionDef) and not dissolved(node, path):
                     fi = FuncInfo(node.name, node.name, node, None, path)
                     self.functions[fi.qualname] = fi
                     self.module_funcs[node.name] = fi
